@@ -535,6 +535,112 @@ def _sink_block_temps(fn: ast.AST) -> None:
     ast.fix_missing_locations(fn)
 
 
+def _while_to_for(fn: ast.AST) -> None:
+    """`i = A; while i < N: BODY; i += 1` is `for i in range(A, N): BODY` (in place, on a working copy) when the two
+    cannot be told apart: A an integer constant, the counter bound by nothing in BODY but the closing increment by one,
+    no `continue` (it would skip the increment), N a name / constant / len(name) that BODY neither re-binds nor
+    modifies, no closure in BODY, and the counter read nowhere outside the loop (its value after the loop differs)."""
+    _attach_parents(fn)
+    for block in list(_stmt_blocks(fn)):
+        for i, st in enumerate(block):
+            if not isinstance(st, ast.While) or st.orelse or not st.body:
+                continue
+            t = st.test
+            if not (isinstance(t, ast.Compare) and len(t.ops) == 1):
+                continue
+            if isinstance(t.ops[0], ast.Lt) and isinstance(t.left, ast.Name):
+                cnt, bound = t.left.id, t.comparators[0]
+            elif isinstance(t.ops[0], ast.Gt) and isinstance(t.comparators[0], ast.Name):
+                cnt, bound = t.comparators[0].id, t.left
+            else:
+                continue
+            inner = bound.args[0] if kmatch("len(_X_)", bound) is not None else bound
+            if not _simple_operand(inner):
+                continue
+            last = st.body[-1]
+            inc = (isinstance(last, ast.AugAssign) and isinstance(last.op, ast.Add) and isinstance(last.target, ast.Name) and last.target.id == cnt
+                   and isinstance(last.value, ast.Constant) and last.value.value == 1 and type(last.value.value) is int)
+            inc = inc or kany([f"{cnt} = {cnt} + 1", f"{cnt} = 1 + {cnt}"], last) is not None
+            if not inc:
+                continue
+            body = st.body[:-1]
+            inside = [x for s in body for x in ast.walk(s)]
+            if not body or any(isinstance(x, (ast.Continue, ast.Lambda, ast.Global, ast.Nonlocal) + FuncNode) for x in inside):
+                continue
+            stored = {x.id for x in inside if isinstance(x, ast.Name) and not isinstance(x.ctx, ast.Load)}
+            free = {x.id for x in ast.walk(bound) if isinstance(x, ast.Name)}
+            if cnt in stored or cnt in free or free & stored or any(r in free for s in body for _s, r in mutation_sites(s, free)):
+                continue
+            # the start value: the nearest statement before the loop that binds the counter, in the same block
+            j = next((k for k in range(i - 1, -1, -1) if any(isinstance(x, ast.Name) and x.id == cnt and not isinstance(x.ctx, ast.Load) for x in ast.walk(block[k]))), None)
+            if j is None:
+                continue
+            init = block[j]
+            v = init.value if isinstance(init, ast.Assign) and len(init.targets) == 1 and isinstance(init.targets[0], ast.Name) else init.value if isinstance(init, ast.AnnAssign) and isinstance(init.target, ast.Name) else None
+            if not (isinstance(v, ast.Constant) and type(v.value) is int):
+                continue
+            if any(isinstance(s, (ast.For, ast.While, ast.If, ast.Try, ast.With) + FuncNode) and any(isinstance(x, ast.Name) and x.id == cnt for x in ast.walk(s)) for s in block[j + 1:i]):
+                continue
+            own = {id(x) for x in ast.walk(st)} | {id(x) for x in ast.walk(init)}
+            if any(isinstance(x, ast.Name) and x.id == cnt and id(x) not in own for x in ast.walk(fn)):
+                continue
+            args = [bound] if v.value == 0 else [v, bound]
+            new = ast.For(target=ast.Name(id=cnt, ctx=ast.Store()), iter=ast.Call(func=ast.Name(id="range", ctx=ast.Load()), args=args, keywords=[]), body=body, orelse=[])
+            ast.copy_location(new, st)
+            for y in [new.target, new.iter, new.iter.func]:
+                ast.copy_location(y, st)
+            block[i] = new
+            del block[j]
+            return _while_to_for(fn)
+    ast.fix_missing_locations(fn)
+
+
+_REPO: List[Optional[Repo]] = [None]  # set by run(): lets a Flow resolve the calls of its function to package functions
+
+
+def _callee(repo: Repo, mod, call: ast.Call, ctx: Optional[ast.AST] = None) -> Optional[Tuple[object, ast.AST, bool]]:
+    """The package function *call* targets when it is reached through a name - a module-level function, or a static /
+    class method named through its class - as (module, function, first parameter is the implicit class)."""
+    f = call.func
+    if not isinstance(f, (ast.Name, ast.Attribute)) or dotted_name(f) is None:
+        return None
+    if isinstance(f, ast.Attribute) and dotted_name(f).split(".")[0] in ("self", "cls"):
+        return None
+    try:
+        r = repo.resolve_name(mod, f, ctx if ctx is not None else call)
+    except Exception:
+        return None
+    if r is None or not isinstance(r[1], FuncNode):
+        return None
+    fn, p = r[1], parent(r[1])
+    decos = {dotted_name(d) for d in fn.decorator_list}
+    if isinstance(p, ast.Module) and not decos:
+        return (r[0], fn, False)
+    if isinstance(p, ast.ClassDef) and decos in ({"staticmethod"}, {"classmethod"}):
+        return (r[0], fn, decos == {"classmethod"})
+    return None
+
+
+def _canon_call_args(fn: ast.AST, repo: Repo, mod) -> None:
+    """One spelling (in place, on a working copy; matching only) for the arguments of a call to a package function:
+    `f(a=x, b=y)` is `f(x, y)` when a, b are f's leading positional-or-keyword parameters - a parameter that can be
+    passed by position is, as far as the leading run of supplied parameters goes; keyword-only ones stay keywords."""
+    for c in [n for n in ast.walk(fn) if isinstance(n, ast.Call)]:
+        if not c.keywords or any(k.arg is None for k in c.keywords) or any(isinstance(a, ast.Starred) for a in c.args):
+            continue
+        hit = _callee(repo, mod, c)
+        if hit is None or hit[1].args.posonlyargs:
+            continue
+        pos = [p.arg for p in hit[1].args.args][1 if hit[2] else 0:]
+        kws = {k.arg: k for k in c.keywords}
+        n = len(c.args)
+        while n < len(pos) and pos[n] in kws:
+            k = kws.pop(pos[n])
+            c.args.append(k.value)
+            c.keywords.remove(k)
+            n += 1
+
+
 def _purity_c(e: ast.AST, purity) -> Optional[str]:
     """normal._purity, plus: a list / set / dict comprehension whose parts are pure builds a fresh object"""
     if isinstance(e, (ast.ListComp, ast.SetComp, ast.DictComp)):
@@ -568,6 +674,7 @@ class Flow:
 
     def __init__(self, nf: ast.AST, post=None):
         work = clone(nf)
+        _while_to_for(work)
         _unwalrus(work)
         _sink_block_temps(work)
         self.fn = _canon_records(work)
@@ -576,6 +683,11 @@ class Flow:
         ast.fix_missing_locations(self.fn)
         _attach_parents(self.fn)
         self.fn._parent = parent(nf)  # type: ignore[attr-defined]
+        if _REPO[0] is not None:
+            try:
+                _canon_call_args(self.fn, _REPO[0], _REPO[0].module_of(self.fn))
+            except AnalysisError:
+                pass  # a function made up by a rule (no module around it): nothing to resolve
         for n in ast.walk(self.fn):
             n._ksorted = True  # type: ignore[attr-defined]
         self.g = CFG(self.fn, may_raise=lambda p: set())
@@ -1575,6 +1687,52 @@ def _element_parameters(repo: Repo, R: Report) -> None:
         R.check(dumps is not None and dumps == bf_dumps, rule, SWEEP, CREATE, "the generated signature declares the required and optional external parameters", f"`{_u(c)[:140]}`: the parameters declared by the generated signature are not the ones whose provided values are handed to the element (`{bf}`): the node does not fetch a declared-away parameter and the processor's default is used", c.lineno)
 
 
+def _declared_settings(repo: Repo, R: Report, attrs: Dict[str, Dict[str, str]]) -> None:
+    """*attrs*: generated class name -> {role: class attribute} for the roles mode / broadcast / vars, as read by that
+    class' sweep body (`_iterate_sweep(.., mode=S.<attr>, broadcast=S.<attr>)`, `_materialize_sequences(vars=S.<attr>, ..)`).
+    The other side of those reads: the factory stores its own `mode` / `broadcast` / `vars` argument under that attribute,
+    as given - nothing between the entry of create() and the class body re-binds it (no derived default, no
+    normalisation) -, and an omitted mode / broadcast is the documented 'combinatorial' / False."""
+    rule = R.rule("C03-D3-declared-settings", "the mode, broadcast flag and variables a generated sweep class enumerates its steps with are the factory's `mode`, `broadcast` and `vars` arguments as given (each class attribute the sweep body reads is bound to the parameter itself, not re-bound on the way), and the factory's defaults are the documented ones: mode 'combinatorial', broadcast False", 11)
+    raw = repo.func(SWEEP, CREATE)
+    F = Flow(nfunc(repo, SWEEP, CREATE, keep=("_build_signature",), copyprop="all"))
+    a = F.fn.args
+    names = [p_.arg for p_ in a.posonlyargs + a.args] + [p_.arg for p_ in a.kwonlyargs]
+    dfl: Dict[str, Optional[ast.AST]] = {}
+    pa = a.posonlyargs + a.args
+    for p_, d_ in zip(pa, [None] * (len(pa) - len(a.defaults)) + list(a.defaults)):
+        dfl[p_.arg] = d_
+    for p_, d_ in zip(a.kwonlyargs, a.kw_defaults):
+        dfl[p_.arg] = d_
+    from ..normal import module_constants
+    consts = module_constants(repo.module(SWEEP))
+    for role, doc in (("mode", "'combinatorial'"), ("broadcast", "False")):
+        if role not in names:
+            raise AnalysisError(f"create: parameter `{role}` not found (public keyword of the factory)")
+        d_ = dfl.get(role)
+        if isinstance(d_, ast.Name) and d_.id in consts:
+            d_ = consts[d_.id]
+        R.check(d_ is not None and kmatch(doc, d_) is not None, rule, SWEEP, CREATE, f"{role} defaults to {doc}", f"`{role}={_u(d_) if d_ is not None else '<required>'}`: the factory's default for `{role}` is not the documented {doc}: a sweep created without `{role}` enumerates its steps differently (e.g. aligned positions instead of the Cartesian product)", raw.lineno)
+    for cname, roles in sorted(attrs.items()):
+        cd = next((c for c in ast.walk(F.fn) if isinstance(c, ast.ClassDef) and c.name == cname), None)
+        ids = F.g.nodes_for(cd) if cd is not None else []
+        if not ids:
+            raise AnalysisError(f"create: generated class {cname} not found in the normal form")
+        for role, attr in sorted(roles.items()):
+            sts = [st for st in cd.body if isinstance(st, (ast.Assign, ast.AnnAssign)) and getattr(st, "value", None) is not None
+                   and any(isinstance(t, ast.Name) and t.id == attr for t in (st.targets if isinstance(st, ast.Assign) else [st.target]))]
+            if len(sts) != 1:
+                raise AnalysisError(f"create: class {cname} binds `{attr}` {len(sts)} times in its body (once confirmed by reading)")
+            xs = [_strip_cast(x) for x in F.expand(sts[0].value, ids[0])]
+            ok = bool(xs) and all(isinstance(x, ast.Name) and x.id == role for x in xs) and F.rdefs(role, ids[0]) == ([], True)
+            redef = [F.g.nodes[d_] for d_ in F.rdefs(role, ids[0])[0]]
+            where = redef[0] if redef else None
+            R.check(ok, rule, SWEEP, f"{CREATE}.{cname}", f"{attr} = {role} (the factory's argument as given)",
+                    f"`{_plain(where.text())[:100] if where is not None else _u(sts[0])[:100]}`: the `{role}` a {cname} enumerates its steps with is not the factory's `{role}` argument as given" + (f" (it is re-bound before the class is made)" if where is not None else "") + ": the sweep expands to a step sequence other than the one its declared mode / broadcast / variables document",
+                    where.line if where is not None else getattr(sts[0], "lineno", raw.lineno))
+
+
+
 # ---------------------------------------------------------------------------------------------------------
 # D6 (upper bound of a log range): a small algebraic normal form
 # ---------------------------------------------------------------------------------------------------------
@@ -1845,6 +2003,7 @@ def _expression_scope(repo: Repo, R: Report) -> None:
     if not facts:
         raise AnalysisError("the method that makes the callables of the sweep's parametric expressions (a closure-returning method of an evaluator class used by ParametricSweepFactory.create) was not found")
     n_evals = 0
+    helper_maps: List[Tuple[object, ast.AST, str]] = []
     for hm, h in facts:
         rel, hqn = hm.rel, qualname_of(h)
         repo.consulted.add(rel)
@@ -2036,6 +2195,7 @@ def _expression_scope(repo: Repo, R: Report) -> None:
                         order = list(reversed(ls)) + list(reversed(gs))  # name lookup order: locals, then globals; last writer first
                         order = [l for l in order if not (l[0] == "key" and l[1] in _EVAL_MECHANISM_KEYS)]
                         scope_txt = _u(g_) if l_ is None else f"globals {_u(g_)}, locals {_u(l_)}"
+                        helper_maps += [(hm, h, l[1]) for l in order if l[0] == "map"]
                         if not any(l[0] == "kw" for l in order):
                             R.check(False, rule, rel, kqn, _u(c), f"`{_u(c)[:100]}`: the step's variables (`{kwname}`) are not part of the evaluation scope ({scope_txt[:100]}); the expression is not evaluated on this step's values", getattr(c, "lineno", kline))
                         else:
@@ -2043,6 +2203,269 @@ def _expression_scope(repo: Repo, R: Report) -> None:
                             R.check(not over, rule, rel, kqn, _u(c), f"`{_u(c)[:100]}` with scope {scope_txt[:120]}: {', '.join(show(l) for l in over)} {'is' if len(over) == 1 else 'are'} looked up before the step's variables (`{kwname}`): a sweep variable named like one of {'its' if len(over) == 1 else 'their'} entries (e.g. a helper function name such as min / max / abs) evaluates to that entry instead of the step's value, so the computed parameter is not the expression over this step's variables" if over else "", getattr(c, "lineno", kline))
     if n_evals == 0:
         raise AnalysisError("no evaluation site found in the callables of the sweep's parametric expressions")
+    _expression_helpers(repo, R, helper_maps)
+
+
+# ---------------------------------------------------------------------------------------------------------
+# D2 (what a helper call in an expression means): the table layered under the step's variables
+# ---------------------------------------------------------------------------------------------------------
+# C03-D2-expression-variables decides that the step's variables are the innermost layer of the evaluation scope.  The
+# layer(s) under them are where a call such as `bool(x)` / `round(x)` / `min(a, b)` in an expression finds its function.
+# The safe grammar documents these helpers as the Python builtins of the same name: "the value of parameter p computed
+# by expression E at step i" is E evaluated with Python's own bool / int / round ... .  The other side of that
+# interface is the table the evaluator class builds: an entry named like a builtin that is bound to anything else (a
+# function of the package, a lambda, another builtin) changes what every expression using it computes, silently.
+
+import builtins as _py_builtins
+
+_BUILTIN_NAMES = {n for n in dir(_py_builtins) if not n.startswith("_")}
+
+
+def _table_entries(repo: Repo, mod, ctx: ast.AST, e: Optional[ast.AST], cls_chain, depth: int = 0, seen: Optional[Set[Tuple[int, str]]] = None):
+    """The entries the mapping expression *e* (evaluated in function / module *ctx* of module *mod*) can hold, as a list of
+    (name, value expression, module and scope the value is evaluated in, site); entries supplied by a caller (through a
+    parameter) are left out.  None when the construction is not understood.  *cls_chain*: the classes (module, ClassDef)
+    whose `self.<attr>` / `cls.<attr>` the expression may read."""
+    seen = seen if seen is not None else set()
+    if e is None or depth > 10:
+        return None
+
+    def many(parts) -> Optional[list]:
+        out: list = []
+        for p_ in parts:
+            if p_ is None:
+                return None
+            out += p_
+        return out
+
+    def rec(x: Optional[ast.AST], c: ast.AST = ctx, m=mod):
+        return _table_entries(repo, m, c, x, cls_chain, depth + 1, seen)
+
+    e = _strip_cast(e)
+    if isinstance(e, ast.Constant) and e.value is None:
+        return []
+    if isinstance(e, ast.Dict):
+        parts = []
+        for k, v in zip(e.keys, e.values):
+            if k is None:
+                parts.append(rec(v))
+            elif isinstance(k, ast.Constant) and isinstance(k.value, str):
+                parts.append([(k.value, v, mod, ctx, v)])
+            else:
+                return None
+        return many(parts)
+    if isinstance(e, ast.BinOp) and isinstance(e.op, ast.BitOr):
+        return many([rec(e.left), rec(e.right)])
+    if isinstance(e, ast.IfExp):
+        return many([rec(e.body), rec(e.orelse)])
+    if isinstance(e, ast.BoolOp):
+        return many([rec(v) for v in e.values])
+    if isinstance(e, ast.DictComp):
+        m_ = kany(["{_k_: _v_ for (_k_, _v_) in _X_.items()}", "{_k_: _X_[_k_] for _k_ in _X_}", "{_k_: _X_[_k_] for _k_ in _X_.keys()}"], e)
+        return rec(m_["_X_"]) if m_ else None
+    if isinstance(e, ast.Call):
+        fnm = (dotted_name(e.func) or "").split(".")[-1]
+        if isinstance(e.func, ast.Attribute) and e.func.attr in ("copy", "items") and not e.args and not e.keywords:
+            return rec(e.func.value)
+        if any(isinstance(a, ast.Starred) for a in e.args):
+            return None
+        if fnm in ("dict", "MappingProxyType", "OrderedDict") and len(e.args) <= 1:
+            return many([rec(a) for a in e.args] + [rec(k.value) if k.arg is None else [(k.arg, k.value, mod, ctx, k.value)] for k in e.keywords])
+        if fnm == "ChainMap" and not e.keywords:
+            return many([rec(a) for a in e.args])
+        if fnm == "deepcopy" and len(e.args) == 1:
+            return rec(e.args[0])
+        return None
+    if isinstance(e, ast.Attribute) and isinstance(e.value, ast.Name) and (e.value.id in ("self", "cls") or any(cd.name == e.value.id for _m, cd in cls_chain)):
+        return _attr_entries(repo, cls_chain, e.attr, depth + 1, seen)
+    if isinstance(e, ast.Name):
+        key = (id(ctx), e.id)
+        if key in seen:
+            return []
+        seen.add(key)
+        if isinstance(ctx, FuncNode):
+            a = ctx.args
+            if e.id in {p_.arg for p_ in a.posonlyargs + a.args + a.kwonlyargs} | ({a.vararg.arg} if a.vararg else set()) | ({a.kwarg.arg} if a.kwarg else set()):
+                # a parameter: what the caller supplies (its default included) is the caller's business; but the parameter may be re-bound / filled
+                vals = assigned_value(ctx, e.id)
+                return many([rec(v) for v in vals] + [_filled(repo, mod, ctx, e.id, cls_chain, depth, seen)])
+            vals = assigned_value(ctx, e.id)
+            if vals or any(isinstance(x, ast.Name) and x.id == e.id and not isinstance(x.ctx, ast.Load) for x in walk_no_nested(ctx)):
+                if not vals:
+                    return None  # bound by a loop / with / unpacking: not a table this rule follows
+                return many([rec(v) for v in vals] + [_filled(repo, mod, ctx, e.id, cls_chain, depth, seen)])
+        # a module-level table
+        tops = [st for st in mod.tree.body if (isinstance(st, ast.Assign) and any(isinstance(t, ast.Name) and t.id == e.id for t in st.targets))
+                or (isinstance(st, ast.AnnAssign) and isinstance(st.target, ast.Name) and st.target.id == e.id and st.value is not None)]
+        if tops:
+            return many([rec(st.value, mod.tree, mod) for st in tops] + [_filled(repo, mod, mod.tree, e.id, cls_chain, depth, seen)])
+        target = mod.imports.get(e.id)
+        hit = repo.resolve_dotted(target) if target else None
+        if hit is None and target:
+            # an imported module-level table of another module of the package
+            head, _, last = target.rpartition(".")
+            om = repo.by_dotted.get(head)
+            if om is not None:
+                return _table_entries(repo, om, om.tree, ast.Name(id=last, ctx=ast.Load()), cls_chain, depth + 1, seen)
+        return None
+    return None
+
+
+def _filled(repo: Repo, mod, ctx: ast.AST, name: str, cls_chain, depth: int, seen):
+    """Entries put into the mapping held by local / module-level name *name* after it was made (stores, update, |=,
+    setdefault); None when it is modified in a way this rule does not follow (removals do not add entries)."""
+    out: list = []
+    body = ctx if isinstance(ctx, FuncNode) else ast.Module(body=[st for st in ctx.body if not isinstance(st, FuncNode + (ast.ClassDef,))], type_ignores=[])
+    for st, _r in mutation_sites(body, {name}):
+        if isinstance(st, ast.Assign) and len(st.targets) == 1 and kmatch(f"{name}[_K_]", st.targets[0]) is not None:
+            k = st.targets[0].slice
+            if not (isinstance(k, ast.Constant) and isinstance(k.value, str)):
+                return None
+            out.append((k.value, st.value, mod, ctx, st))
+        elif isinstance(st, ast.AugAssign) and isinstance(st.op, ast.BitOr) and isinstance(st.target, ast.Name) and st.target.id == name:
+            r = _table_entries(repo, mod, ctx, st.value, cls_chain, depth + 1, seen)
+            if r is None:
+                return None
+            out += r
+        elif isinstance(st, ast.Call) and kmatch(f"{name}.update", st.func) is not None and len(st.args) <= 1 and not any(isinstance(a, ast.Starred) for a in st.args):
+            for part in [a for a in st.args] + [k for k in st.keywords]:
+                if isinstance(part, ast.keyword) and part.arg is not None:
+                    out.append((part.arg, part.value, mod, ctx, st))
+                    continue
+                r = _table_entries(repo, mod, ctx, part.value if isinstance(part, ast.keyword) else part, cls_chain, depth + 1, seen)
+                if r is None:
+                    return None
+                out += r
+        elif isinstance(st, ast.Call) and kmatch(f"{name}.setdefault(_K_, _V_)", st) is not None and isinstance(st.args[0], ast.Constant) and isinstance(st.args[0].value, str):
+            out.append((st.args[0].value, st.args[1], mod, ctx, st))
+        elif isinstance(st, ast.Call) and kmatch(f"{name}._M_", st.func) is not None and st.func.attr in ("pop", "popitem", "clear", "discard"):
+            continue
+        elif isinstance(st, ast.Delete):
+            continue
+        else:
+            return None
+    return out
+
+
+def _attr_entries(repo: Repo, cls_chain, attr: str, depth: int, seen):
+    """Entries of the mapping kept under attribute *attr* of the evaluator: every `self.<attr> = V` of the classes'
+    methods and every class-level `<attr> = V`."""
+    key = (0, "." + attr)
+    if key in seen:
+        return []
+    seen.add(key)
+    out: list = []
+    found = False
+    for cm, cd in cls_chain:
+        for st in cd.body:
+            if isinstance(st, (ast.Assign, ast.AnnAssign)) and getattr(st, "value", None) is not None and any(isinstance(t, ast.Name) and t.id == attr for t in (st.targets if isinstance(st, ast.Assign) else [st.target])):
+                found = True
+                r = _table_entries(repo, cm, cm.tree, st.value, cls_chain, depth + 1, seen)
+                if r is None:
+                    return None
+                out += r
+            elif isinstance(st, FuncNode):
+                recv_p = st.args.args[0].arg if st.args.args else None
+                for wst, _f, recv, v in _field_stores(st, {attr}):
+                    if not (isinstance(recv, ast.Name) and recv.id == recv_p):
+                        continue
+                    found = True
+                    if v is None:
+                        return None
+                    r = _table_entries(repo, cm, st, v, cls_chain, depth + 1, seen)
+                    if r is None:
+                        return None
+                    out += r
+                # entries added through the attribute itself: self.<attr>[k] = v, self.<attr>.update(..)
+                for n in walk_no_nested(st):
+                    if isinstance(n, ast.Assign) and len(n.targets) == 1 and isinstance(n.targets[0], ast.Subscript) and kmatch(f"{recv_p}.{attr}", n.targets[0].value) is not None:
+                        k = n.targets[0].slice
+                        if not (isinstance(k, ast.Constant) and isinstance(k.value, str)):
+                            return None
+                        out.append((k.value, n.value, cm, st, n))
+                    elif isinstance(n, ast.Call) and kmatch(f"{recv_p}.{attr}.update", n.func) is not None:
+                        if len(n.args) > 1 or any(isinstance(a, ast.Starred) for a in n.args):
+                            return None
+                        for part in list(n.args) + list(n.keywords):
+                            if isinstance(part, ast.keyword) and part.arg is not None:
+                                out.append((part.arg, part.value, cm, st, n))
+                                continue
+                            r = _table_entries(repo, cm, st, part.value if isinstance(part, ast.keyword) else part, cls_chain, depth + 1, seen)
+                            if r is None:
+                                return None
+                            out += r
+    return out if found else None
+
+
+def _bound_in(scope: ast.AST, name: str) -> bool:
+    """*name* is bound (def / class / import / assignment / parameter) in function or module *scope* itself"""
+    if isinstance(scope, FuncNode):
+        a = scope.args
+        if name in {p_.arg for p_ in a.posonlyargs + a.args + a.kwonlyargs} | ({a.vararg.arg} if a.vararg else set()) | ({a.kwarg.arg} if a.kwarg else set()):
+            return True
+        nodes = list(walk_no_nested(scope, include_root=False))
+    else:
+        nodes = []
+        todo = list(scope.body)
+        while todo:
+            st = todo.pop()
+            nodes.append(st)
+            if not isinstance(st, FuncNode + (ast.ClassDef,)):
+                todo += [c for c in ast.iter_child_nodes(st)]
+    for n in nodes:
+        if isinstance(n, FuncNode + (ast.ClassDef,)) and n.name == name:
+            return True
+        if isinstance(n, (ast.Import, ast.ImportFrom)) and any((al.asname or al.name).split(".")[0] == name for al in n.names):
+            return True
+        if isinstance(n, ast.Name) and n.id == name and not isinstance(n.ctx, ast.Load):
+            return True
+    return False
+
+
+def _is_builtin_named(name: str, v: ast.AST, mod, scope: ast.AST) -> bool:
+    """expression *v*, evaluated in *scope* of module *mod*, is the Python builtin called *name*"""
+    v = _strip_cast(v)
+    if isinstance(v, ast.Name):
+        if v.id != name or name not in _BUILTIN_NAMES:
+            return False
+        scopes = [scope] + [a for a in ancestors(scope) if isinstance(a, FuncNode + (ast.Module,))] if not isinstance(scope, ast.Module) else [scope]
+        if mod.tree not in scopes:
+            scopes.append(mod.tree)
+        return not any(_bound_in(s_, name) for s_ in scopes)
+    d = dotted_name(v)
+    if d in (f"builtins.{name}", f"__builtins__.{name}"):
+        return mod.imports.get("builtins", "builtins") == "builtins" and not _bound_in(mod.tree, "__builtins__")
+    m_ = kany(["getattr(builtins, _N_)", "builtins.__dict__[_N_]"], v)
+    return bool(m_) and isinstance(m_["_N_"], ast.Constant) and m_["_N_"].value == name
+
+
+def _expression_helpers(repo: Repo, R: Report, maps: List[Tuple[object, ast.AST, str]]) -> None:
+    """*maps*: (module, closure-factory method, text) of the mappings layered under the step's variables in the
+    evaluation scope of a compiled expression."""
+    rule = R.rule("C03-D2-expression-helpers", "a helper call in a sweep expression (abs / min / max / round / float / int / str / bool ...) means the Python builtin of that name: every entry named like a builtin in the table(s) the evaluator layers under the step's variables is bound to that builtin itself - not to a function of the package, a lambda or another builtin - so the value computed for a parameter at step i is the expression over the step's variables with Python's own semantics", 1)
+    done: Set[Tuple[str, str]] = set()
+    for hm, h, text in maps:
+        cd = next((a for a in ancestors(h) if isinstance(a, ast.ClassDef)), None)
+        if (hm.rel, text) in done:
+            continue
+        done.add((hm.rel, text))
+        chain = repo.mro(hm, cd) if cd is not None else []
+        for cm, _c in chain:
+            repo.consulted.add(cm.rel)
+        try:
+            e = ast.parse(text, mode="eval").body
+        except SyntaxError:
+            continue
+        entries = _table_entries(repo, hm, h, e, chain)
+        if entries is None:
+            raise AnalysisError(f"{qualname_of(h)}: the table `{text}` that expressions find their helper functions in is not built in a way this rule follows (display, dict()/copy of a table, stores, update)")
+        for name, v, vm, scope, site in entries:
+            if name not in _BUILTIN_NAMES:
+                continue  # not a name of Python's own: which extra helpers exist is not this property's business
+            fn_q = qualname_of(scope) if isinstance(scope, FuncNode) else "<module>"
+            stmt = f"'{name}': {_u(v)[:60]}"
+            R.check(_is_builtin_named(name, v, vm, scope), rule, vm.rel, fn_q, stmt, f"`{stmt}`: in sweep expressions the helper `{name}(...)` is not Python's builtin `{name}` but `{_u(v)[:60]}`: every expression that calls it (e.g. a parameter computed as `{name}(<sweep variable>)`) evaluates to something else than the documented expression over the step's variables, so element i is not the wrapped processor applied with the computed parameters", getattr(site, "lineno", getattr(v, "lineno", 0)))
+
 
 
 # ---------------------------------------------------------------------------------------------------------
@@ -2614,6 +3037,7 @@ def run(repo: Repo, R: Report) -> None:
         "the wrapped processor applied to the merged parameters is what 'element i' means",
     )
     R.undecided("numerical content of range variables and of expression values; the typed collection's own behaviour")
+    _REPO[0] = repo
 
     # ------------------------------------------------------------------ D1
     # Decided per *scenario* (combinatorial / by_position+broadcast / by_position without broadcast): the branch
@@ -2768,13 +3192,8 @@ def run(repo: Repo, R: Report) -> None:
 
     # ------------------------------------------------------------------ D2
     r_m = R.rule("C03-D2-merge-precedence", "call parameters start from the provided (node/default) values and are then overwritten by the expression outputs", 1)
-    mg = repo.func(SWEEP, "_merge_call_parameters")
-    kw = [a.arg for a in mg.args.kwonlyargs] or [a.arg for a in mg.args.args]
-    base_p = next((a for a in kw if "base" in a), kw[0] if kw else "base_kwargs")
-    expr_p = next((a for a in kw if "expr" in a), kw[-1] if kw else "expression_outputs")
-    layers = _merge_layers(nfunc(repo, SWEEP, "_merge_call_parameters", copyprop="all"), {base_p, expr_p})
-    ok = layers is not None and all(ls == [x for x in (base_p, expr_p) if x not in empty] for ls, empty in layers)
-    R.check(ok, r_m, SWEEP, "_merge_call_parameters", "merged = dict(base_kwargs); merged.update(expression_outputs)", "computed-by-expression values no longer take precedence over provided ones", mg.lineno)
+    # (decided below, once the generated bodies have shown which function merges what: the function is found by its
+    #  role - called in the step loop, its result is what the element's parameters are filtered from - not by its name)
     _expression_scope(repo, R)
 
     # ------------------------------------------------------------------ D3
@@ -2785,7 +3204,31 @@ def run(repo: Repo, R: Report) -> None:
     r_inst = R.rule("C03-D3-element-instance-per-step", "element i is the wrapped processor applied to the input with the merged parameters of step i and nothing else: the processor object whose process() yields the element of a step is constructed (self._element(..)) inside that step of the loop, on every path to the call - no object made before the loop (or in an earlier step) is applied again, so no per-object state is carried from one step to the next; a source is applied through its class", 3)
     variants = variant_bodies(repo)
     create_fn = repo.func(SWEEP, CREATE)
-    KEEP = ("_materialize_sequences", "_iterate_sweep", "_merge_call_parameters", "_publish_created_context")
+    mod_sweep = repo.module(SWEEP)
+    merge_hits: Dict[int, Tuple[object, ast.AST, bool]] = {}
+    merge_names: Set[str] = set()
+    for _qn, f_ in variants:
+        for c_ in calls_in(f_):
+            hit_ = _callee(repo, mod_sweep, c_)
+            if hit_ is None or id(hit_[1]) in merge_hits:
+                if hit_ is not None:
+                    merge_names.add((call_name(c_) or "").split(".")[-1])
+                continue
+            a_ = hit_[1].args
+            ps_ = [p_.arg for p_ in a_.posonlyargs + a_.args + a_.kwonlyargs][1 if hit_[2] else 0:]
+            if len(ps_) == 2 and not a_.vararg and not a_.kwarg and _merge_layers(normalize(repo, hit_[0], hit_[1], copyprop="all"), set(ps_)) is not None:
+                merge_hits[id(hit_[1])] = hit_
+                merge_names.add((call_name(c_) or "").split(".")[-1])
+    merge_names = {n_ for n_ in merge_names if any(h_[1].name == n_ for h_ in merge_hits.values())}
+    if len(merge_hits) != 1:
+        raise AnalysisError(f"{len(merge_hits)} functions that layer two mappings are called by the generated sweep bodies (the one merge of provided and computed parameters confirmed by reading)")
+    merge_mod, merge_fn, merge_skip = next(iter(merge_hits.values()))
+    repo.consulted.add(merge_mod.rel)
+    merge_pos = [p_.arg for p_ in merge_fn.args.args][1 if merge_skip else 0:]
+    merge_params = merge_pos + [p_.arg for p_ in merge_fn.args.kwonlyargs]
+    merge_roles: Set[Tuple[str, str]] = set()
+    setting_attrs: Dict[str, Dict[str, str]] = {}
+    KEEP = ("_materialize_sequences", "_iterate_sweep", "_publish_created_context") + tuple(sorted(merge_names))
     forms: Dict[str, Dict[str, str]] = {}
     flows: Dict[str, Tuple[Flow, ast.For]] = {}
     for qn, f in variants:
@@ -2820,6 +3263,8 @@ def run(repo: Repo, R: Report) -> None:
         its = FV.expand(loop.iter, FV.nid(loop))
         mi = [kmatch(f"_iterate_sweep(_SEQ_, broadcast={S}._broadcast, mode={S}._mode)", x) for x in its]
         mats = [kmatch(f"_materialize_sequences(params={kwname}, vars={S}._vars)[0]", m["_SEQ_"]) if m else None for m in mi]
+        if isinstance(parent(f), ast.ClassDef):
+            setting_attrs[parent(f).name] = {"mode": "_mode", "broadcast": "_broadcast", "vars": "_vars"}
         mat_calls = [c for c in body_calls if call_name(c) == "_materialize_sequences"]
         ok = len(mat_calls) == 1 and bool(mats) and all(m is not None for m in mats)
         R.check(ok, r_v, SWEEP, qn, "_materialize_sequences(vars=S._vars, params=kwargs)", "the sequences that are iterated are not the ones materialised from the class' variables and the call's parameters", f.lineno)
@@ -2840,7 +3285,24 @@ def run(repo: Repo, R: Report) -> None:
         P = els[0][1]["_P_"] if len(els) == 1 else None
         pxs = FV.expand(P, FV.nid(els[0][0])) if P is not None else []
         m_f = [kmatch(f"{{_k_: _v_ for (_k_, _v_) in _C_.items() if _k_ in {S}._allowed_names}}", x) for x in pxs]
-        m_c = [kmatch("_merge_call_parameters(base_kwargs=_B_, expression_outputs=_E_)", m["_C_"]) if m else None for m in m_f]
+        pat_b_any = f"{{_n_: {kwname}[_n_] for _n_ in _BF_ if _ANY_}}"
+        pat_e = f"{{_p_: _fn_(**{step}) for (_p_, _fn_) in {S}._compiled_exprs.items()}}"
+
+        def merge_call(C: ast.AST) -> Optional[Dict[str, ast.AST]]:
+            """C is a call of the merge function: its two arguments by role (the provided values / the expression outputs)"""
+            if not isinstance(C, ast.Call):
+                return None
+            hit = _callee(repo, mod_sweep, C, create_fn)
+            b = _bind_args(C, merge_pos) if hit is not None and hit[1] is merge_fn else None
+            if b is None or set(b) != set(merge_params):
+                return None
+            p0, p1 = merge_params
+            if kmatch(pat_b_any, b[p1]) is not None or (kmatch(pat_e, b[p0]) is not None and kmatch(pat_b_any, b[p0]) is None):
+                p0, p1 = p1, p0
+            merge_roles.add((p0, p1))
+            return {"_B_": b[p0], "_E_": b[p1]}
+
+        m_c = [merge_call(m["_C_"]) if m else None for m in m_f]
         m_b = [kmatch(f"{{_n_: {kwname}[_n_] for _n_ in _BF_ if _n_ in {kwname}}}", m["_B_"]) if m else None for m in m_c]
         m_b_any = [kmatch(f"{{_n_: {kwname}[_n_] for _n_ in _BF_ if _ANY_}}", m["_B_"]) if m else None for m in m_c]
         m_e = [kmatch(f"{{_p_: _fn_(**{step}) for (_p_, _fn_) in {S}._compiled_exprs.items()}}", m["_E_"]) if m else None for m in m_c]
@@ -2907,11 +3369,20 @@ def run(repo: Repo, R: Report) -> None:
         ok = ok and all(FV.nid(r_) not in _reach(gv, [gv.entry], {FV.nid(loop)}) for r_ in rets)
         R.check(ok, r_v, SWEEP, qn, "return " + ("results" if is_probe else "S._collection_output.from_list(results)"), what, f.lineno)
         forms[qn] = d
+    # D2: the merge function layers the expression outputs over the provided values
+    mqn = qualname_of(merge_fn)
+    layers = _merge_layers(normalize(repo, merge_mod, merge_fn, copyprop="all"), set(merge_params))
+    ok = len(merge_roles) == 1 and layers is not None
+    if ok:
+        base_p, expr_p = next(iter(merge_roles))
+        ok = all(ls == [x for x in (base_p, expr_p) if x not in empty] for ls, empty in layers)
+    R.check(ok, r_m, merge_mod.rel, mqn, "merged = dict(base_kwargs); merged.update(expression_outputs)", "computed-by-expression values no longer take precedence over provided ones" if len(merge_roles) == 1 else "the generated bodies do not agree on which argument of the merge carries the provided values and which the expression outputs", merge_fn.lineno)
     names = list(forms)
     for key in ("materialise", "pop", "base_kwargs", "iterate", "params"):
         vals = {forms[n][key] for n in names}
         R.check(len(vals) == 1, r_v, SWEEP, CREATE, f"variants agree on step `{key}`", f"the generated source / operation / probe bodies differ in `{key}`", 0)
     _element_parameters(repo, R)
+    _declared_settings(repo, R, setting_attrs)
 
     # ------------------------------------------------------------------ D4
     r_p = R.rule("C03-D4-publication", "every variant declares <var>_values for each variable, materialisation stores exactly those keys, each variant hands them to the run context (or leaves them for the node), and the probe node publishes and declares them", 9)
